@@ -6,6 +6,8 @@
         without) and keep it as /verif/seeded/<id>/
   tools_seeded.py run <id> [tier]     apply to /repo, run the property's
         check, undo; prints the verdict
+  tools_seeded.py control <name> [props]   a change that keeps the properties
+        (controls/<name>.diff): tests and checks must stay quiet with it
 """
 import json
 import os
@@ -126,9 +128,12 @@ def do_run(sid, tier='quick', extra_env=None, in_repo=False):
              if l.startswith(('VIOLATION', '  signature', 'KNOWN', 'HARNESS'))
              or 'done in' in l]
     detected = any(l.startswith('VIOLATION') for l in lines)
+    harness = any(l.startswith('HARNESS') for l in lines) and not detected
     print('\n'.join(lines[:14]))
     print('==> %s %s: %s (%.0fs)' % (sid, prop, 'DETECTED' if detected
-                                     else 'MISSED', time.time() - t0))
+                                     else ('HARNESS-ERROR (not judged)'
+                                           if harness else 'MISSED'),
+                                     time.time() - t0))
     meta['checks'][tier] = {
         'detected': detected,
         'signatures': [l.split('signature: ')[1] for l in lines
@@ -140,7 +145,39 @@ def do_run(sid, tier='quick', extra_env=None, in_repo=False):
     return 0 if detected else 3
 
 
+def do_control(name, props=None, tier='quick'):
+    """A change that keeps every property (controls/<name>.diff): the test
+    suite and every check must pass with it applied (scratch worktree)."""
+    patch = os.path.join(HERE, 'controls', name + '.diff')
+    props = props or ['C09', 'C12', 'C13', 'C14', 'C15', 'C17', 'C18']
+    wt = '/tmp/control-%s-%d' % (name, os.getpid())
+    sh('git -C /repo worktree remove --force %s' % wt)
+    rc, out = sh('git -C /repo worktree add --detach %s HEAD -q' % wt)
+    assert rc == 0, out
+    bad = 0
+    try:
+        rc, out = sh('git apply %s' % patch, cwd=wt)
+        assert rc == 0, 'control does not apply: ' + out
+        env = {'PYTHONPATH': wt, 'VERIF_EVIDENCE_DIR': '/tmp/seedrun-evidence'}
+        rc, out = sh('%s -m pytest -q -p no:cacheprovider 2>&1 | tail -1'
+                     % PY, cwd=wt, env=env)
+        print('tests with the control applied:', out.strip())
+        for prop in props:
+            rc, out = sh('timeout 3000 %s %s/run_check.py %s --tier %s 2>&1'
+                         % (PY, HERE, prop, tier), cwd=HERE, env=env,
+                         timeout=3200)
+            alarm = rc != 0 or 'VIOLATION' in out
+            bad += alarm
+            print('==> control %s %s: %s (exit %d)'
+                  % (name, prop, 'ALARM' if alarm else 'quiet', rc))
+    finally:
+        sh('git -C /repo worktree remove --force %s' % wt)
+    return 1 if bad else 0
+
+
 if __name__ == '__main__':
+    if sys.argv[1] == 'control':
+        sys.exit(do_control(sys.argv[2], sys.argv[3:] or None))
     if sys.argv[1] == 'import':
         sys.exit(do_import(*sys.argv[2:6]))
     if sys.argv[1] == 'run':
